@@ -112,7 +112,8 @@ PROPS = {
     },
     'C05': {
         'level': 'proof',
-        'functions': [],
+        'functions': ['pyx12.error_handler.err_seg.err_count', 'pyx12.error_handler.err_st.err_count', 'pyx12.error_handler.err_st.close',
+                      'pyx12.error_handler.err_gs._get_ack_code', 'pyx12.error_handler.err_gs.count_failed_st'],
         'crosscheck_functions': [],
         'bounded': ['contracts.pipeline:bounded_pipeline_c05'],
     },
